@@ -82,6 +82,10 @@ def run(ctx):
         ctx.guard("new-solvables" + tag, c09.new_solvables, ctx, crate, crs, tag)  # every newly selected solvable gets encoded
         ctx.guard("antecedents" + tag, c03.antecedents, ctx, crate, crs, tag)     # a learnt clause drops none of its literals
         ctx.guard("undo-total" + tag, c05.undo_total, ctx, crate, crs, tag)       # trail and map stay in step under undo
+        # the candidate lists the clauses are built from are the provider's (filter flag / map agreement, memoised under the right key)
+        import mech
+        ctx.guard("candidate-lists" + tag, mech.memo_check, ctx, "candidate-lists", crate, crs, tag)
+        ctx.guard("candidate-lists" + tag, mech.filter_siblings, ctx, crate, crs, tag, "candidate-lists")
 
 
 def conflict_signal(ctx, crate, crs, tag):
